@@ -288,6 +288,9 @@ pub fn quiet_panics() {
         } else {
             String::new()
         };
+        if std::env::var("VERIF_BT").is_ok() {
+            eprintln!("panic: {msg} @ {loc}\n{}", std::backtrace::Backtrace::force_capture());
+        }
         let _ = LAST_PANIC.try_with(|p| *p.borrow_mut() = format!("{msg} @ {loc}"));
     }));
 }
